@@ -43,6 +43,17 @@ def is_zst(t):
     return False
 
 
+def has_single_variant_cenum(t):
+    """does the type tree contain a field-less enum with exactly one variant (a zero-sized type)?"""
+    if isinstance(t, dict):
+        if t.get('k') == 'cenum' and len(t.get('variants') or []) == 1:
+            return True
+        return any(has_single_variant_cenum(x) for x in t.values())
+    if isinstance(t, (list, tuple)):
+        return any(has_single_variant_cenum(x) for x in t)
+    return False
+
+
 def judge_var(v, name, bsval, truth, typ, ctx, counts):
     kinds = valslib.type_kinds(typ['type'])
     for k in kinds:
@@ -58,6 +69,9 @@ def judge_var(v, name, bsval, truth, typ, ctx, counts):
         top = typ['type']['k']
         if cls != 'enum-undecoded' and has_128(typ['type']) and valcmp.contains_undecoded_enum(bsval):
             cls = 'enum-undecoded'
+        if cls in ('wrong-variant', 'enum-undecoded') and has_single_variant_cenum(typ['type']) and valcmp.contains_undecoded_enum(bsval):
+            cls = 'enum-undecoded-zero-sized-single-variant'
+            top = 'any'
         if cls == 'enum-undecoded':
             wide = has_128(typ['type'])
             cls = 'enum-undecoded-128-bit-discriminant' if wide else 'enum-undecoded'
